@@ -126,6 +126,13 @@ func (env *Env) call(e *ECall) TV {
 		f := "sfn_strings_TrimRight"
 		P.Declare(f, fmt.Sprintf("(declare-fun %s (String String) String)", f))
 		return TV{fmt.Sprintf("(%s %s %s)", f, s.T, c.T), "String", s.Go}
+	case "stringof":
+		b := arg(0)
+		if b.Sort == "String" {
+			return b
+		}
+		P.Declare("str_of_"+b.Sort, fmt.Sprintf("(declare-fun str_of_%s (%s) String)", b.Sort, b.Sort))
+		return TV{fmt.Sprintf("(str_of_%s %s)", b.Sort, b.T), "String", types.Typ[types.String]}
 	case "toLower":
 		s := arg(0)
 		f := "sfn_strings_ToLower"
